@@ -170,6 +170,7 @@ package scanner
 //@   requires [events-prefix-is-the-events-dir] len(w.eventsPrefix) == 0 || bytes_eq(w.eventsPrefix, events_dir)
 //@   modifies inferred:(*worker).compactIfExpired
 //@   ensures [only-event-records-expire] isExpired ==> has_prefix(rawKey, events_dir)
+//@   ensures [expired-event-records-go-index-and-versions-alike] !native_ttl && w.timeoutRevision != 0 && len(w.eventsPrefix) > 0 && has_prefix(rawKey, events_dir) && ite(revision == 0, be64_of(value) <= w.timeoutRevision, revision <= w.timeoutRevision) ==> isExpired
 //@   ensures [only-at-or-below-the-timeout-revision] isExpired ==> w.timeoutRevision != 0 && ite(revision == 0, be64_of(value) <= w.timeoutRevision, revision <= w.timeoutRevision)
 
 // ---- C08 ----
